@@ -497,6 +497,119 @@ pub fn run(out: &mut dyn Write, seed: u64, only: &str) -> std::io::Result<()> {
             }, v.iter().map(|x| (*x % 4) as usize).sum::<usize>())?;
         }
     }
+    // nested computations judged like top-level ones: collect_into keeps the target's contents
+    // (C06), Max(n) bounds the threads of the inner computation (C08)
+    {
+        let outer: Vec<u64> = (0..24u64).collect();
+        let oref = &outer;
+        for nt_outer in [2usize, 4] {
+            let name = format!("nested outer_threads={}", nt_outer);
+            chk(out, "C06", &name, "collect_into(non-empty Vec / FixedVec / SplitVec) inside a map closure", || {
+                oref.par().num_threads(nt_outer).chunk_size(2).map(|x| {
+                    let a = (0..(*x % 5 + 3)).collect::<Vec<u64>>().into_par().num_threads(2).map(|y| y + *x).collect_into(vec![1000 + *x, 7]);
+                    let mut f = orx_fixed_vec::FixedVec::new(40);
+                    orx_split_vec::PinnedVec::push(&mut f, 9u64);
+                    let b = (0..(*x % 4 + 2)).collect::<Vec<u64>>().into_par().num_threads(3).map(|y| y * 2).collect_into(f);
+                    let mut sv = orx_split_vec::SplitVec::new();
+                    orx_split_vec::PinnedVec::push(&mut sv, 5u64);
+                    let c = (0..6u64).collect::<Vec<u64>>().into_par().num_threads(2).filter(|y| y % 2 == 0).collect_into(sv);
+                    (a, (0..orx_split_vec::PinnedVec::len(&b)).map(|i| *orx_split_vec::PinnedVec::get(&b, i).expect("in bounds")).collect::<Vec<u64>>(), pv_to_vec(c))
+                }).collect_vec()
+            }, outer.iter().map(|x| {
+                let mut a = vec![1000 + *x, 7];
+                a.extend((0..(*x % 5 + 3)).map(|y| y + *x));
+                let mut b = vec![9u64];
+                b.extend((0..(*x % 4 + 2)).map(|y| y * 2));
+                (a, b, vec![5u64, 0, 2, 4])
+            }).collect::<Vec<_>>())?;
+            chk(out, "C08", &name, "Max(2) inner computation inside a for_each closure: distinct threads and peak concurrency per inner run", || {
+                let worst = std::sync::Mutex::new((0usize, 0usize));
+                oref.par().num_threads(nt_outer).chunk_size(1).for_each(|_| {
+                    let ids = std::sync::Mutex::new(std::collections::HashSet::new());
+                    let live = std::sync::atomic::AtomicUsize::new(0);
+                    let peak = std::sync::atomic::AtomicUsize::new(0);
+                    let n = (0..40u64).collect::<Vec<u64>>().into_par().num_threads(2).chunk_size(1).map(|y| {
+                        ids.lock().unwrap().insert(std::thread::current().id());
+                        let l = live.fetch_add(1, std::sync::atomic::Ordering::SeqCst) + 1;
+                        peak.fetch_max(l, std::sync::atomic::Ordering::SeqCst);
+                        std::thread::sleep(std::time::Duration::from_micros(60));
+                        live.fetch_sub(1, std::sync::atomic::Ordering::SeqCst);
+                        y
+                    }).count();
+                    assert_eq!(n, 40);
+                    let mut w = worst.lock().unwrap();
+                    w.0 = w.0.max(ids.lock().unwrap().len());
+                    w.1 = w.1.max(peak.load(std::sync::atomic::Ordering::SeqCst));
+                });
+                let w = worst.lock().unwrap();
+                (w.0 <= 2, w.1 <= 2)
+            }, (true, true))?;
+        }
+    }
+    // closures that need a deep stack (several hundred KiB, well below the 2 MiB of a spawned
+    // thread): every parameter setting must complete, as num_threads(1) does (C15)
+    {
+        #[inline(never)]
+        fn deep(n: u32, x: u64) -> u64 {
+            let a = [x.wrapping_add(n as u64); 48];
+            let a = std::hint::black_box(a);
+            if n == 0 {
+                a[0]
+            } else {
+                deep(n - 1, x).wrapping_add(a[47] & 1)
+            }
+        }
+        let v: Vec<u64> = (0..40u64).collect();
+        let want: Vec<u64> = v.iter().map(|x| deep(600, *x)).collect();
+        for (nt, cs) in [(1usize, 0usize), (0, 0), (2, 1), (4, 3), (8, 0)] {
+            let name = format!("deep-stack closure nt={} cs={}", nt, cs);
+            chk(out, "C15", &name, "map collect_vec / filter count / reduce", || {
+                let a = v.par().num_threads(nt).chunk_size(cs).map(|x| deep(600, *x)).collect_vec();
+                let b = v.par().num_threads(nt).chunk_size(cs).filter(|x| deep(600, **x) % 2 == 0).count();
+                let c = v.par().num_threads(nt).chunk_size(cs).map(|x| deep(600, *x)).reduce(|p, q| p ^ q);
+                (a, b, c)
+            }, (want.clone(), want.iter().filter(|x| **x % 2 == 0).count(), want.iter().copied().reduce(|p, q| p ^ q)))?;
+        }
+    }
+    // hundreds of live worker threads belonging to other computations (40 computations of up to 16
+    // workers each, all blocked inside their closures) while one more computation runs (C04 …)
+    if only.is_empty() || matches!(only, "C01" | "C03" | "C04") {
+        use std::sync::atomic::{AtomicBool, AtomicUsize, Ordering};
+        let arrived = AtomicUsize::new(0);
+        let release = AtomicBool::new(false);
+        let v: Vec<u64> = (0..750u64).collect();
+        let vref = &v;
+        let (arr, rel) = (&arrived, &release);
+        std::thread::scope(|s| -> std::io::Result<()> {
+            for _ in 0..40 {
+                s.spawn(move || {
+                    (0..16usize).into_par().num_threads(16).chunk_size(1).for_each(|_| {
+                        arr.fetch_add(1, Ordering::SeqCst);
+                        let t0 = std::time::Instant::now();
+                        while !rel.load(Ordering::SeqCst) && t0.elapsed() < std::time::Duration::from_secs(20) {
+                            std::thread::sleep(std::time::Duration::from_millis(1));
+                        }
+                    })
+                });
+            }
+            let t0 = std::time::Instant::now();
+            while arrived.load(Ordering::SeqCst) < 600 && t0.elapsed() < std::time::Duration::from_secs(5) {
+                std::thread::sleep(std::time::Duration::from_millis(2));
+            }
+            let name = format!("victim among {} blocked workers", arrived.load(Ordering::SeqCst) / 100 * 100);
+            let r1 = chk(out, "C04", &name, "count / filter_map count / for_each", || {
+                let n = AtomicUsize::new(0);
+                vref.par().for_each(|_| { n.fetch_add(1, Ordering::SeqCst); });
+                (vref.par().count(), vref.par().filter_map(|x| if x % 3 == 0 { None } else { Some(*x) }).count(), n.load(Ordering::SeqCst))
+            }, (750, 500, 750));
+            let r2 = chk(out, "C03", &name, "sum / max", || (vref.par().copied().sum(), vref.par().num_threads(4).copied().max()), (v.iter().sum::<u64>(), Some(749)));
+            let r3 = chk(out, "C01", &name, "filter collect_vec / map collect_vec", || (vref.par().copied().filter(|x| x % 2 == 0).collect_vec(), vref.par().num_threads(3).map(|x| *x + 1).collect_vec()), (v.iter().copied().filter(|x| x % 2 == 0).collect::<Vec<_>>(), v.iter().map(|x| *x + 1).collect::<Vec<_>>()));
+            release.store(true, Ordering::SeqCst);
+            r1?;
+            r2?;
+            r3
+        })?;
+    }
     // scale: inputs and chunk sizes around the largest constant of the settings code
     // (INITIAL_CHUNK_SIZE = 2^20), plain closures (nothing is recorded)
     if only.is_empty() || matches!(only, "C01" | "C02" | "C03" | "C04" | "C07") {
